@@ -424,6 +424,21 @@ func init() {
 			return nil
 		},
 	})
+	core.Register("c20.jsonBytes", &core.CheckDef{
+		Real: func(raw json.RawMessage) any {
+			var a struct {
+				V json.RawMessage `json:"v"`
+			}
+			json.Unmarshal(raw, &a)
+			b, err := json.MarshalIndent(core.DecodeValRaw(a.V), "", "  ")
+			if err != nil {
+				return map[string]any{"err": "marshal"}
+			}
+			return map[string]any{"ok": string(b)}
+		},
+		DriverOp: "c20.jsonBytes",
+		Judge:    corrJudge("Bytes.jsonRender ≠ json.MarshalIndent"),
+	})
 	registerC20Oracle()
 	core.RegisterProp("C20", runC20)
 }
